@@ -262,11 +262,6 @@ theorem einv_applyOp {k : K} (ht : TInv k) (hr : RInv k) (he : EInv k) (op : KOp
         obtain ⟨a, b⟩ := rejectP_as_settle { k with latches := k.latches.set l (q, true) } q v
         exact einv_settle he' hr' q _ false hq hlt a b
   | addReactions p cap f g => exact einv_addReactions he p cap f g
-  | swap =>
-    simp only [applyOp, swap]
-    split
-    · exact einv_congr he rfl rfl
-    · exact he
   | popJob =>
     simp only [applyOp, popJob]
     split
